@@ -26,6 +26,7 @@ func c18(r *core.Report) {
 	c18PtrNull(r)
 	c18Order(r)
 	c18CycleRec(r)
+	c18StringOption(r)
 }
 
 // kind ranges: what encoding/json can emit for a value of the kind (as numbers).
@@ -71,9 +72,33 @@ func c18Kinds(r *core.Report) {
 		table := c18KindTable()
 		seen := map[string]bool{}
 		var sliceClause *ast.CaseClause
+		// the switch over the kind of the type being generated (a parameter of the function), not
+		// any other switch over kinds (the ,string option looks at the kind of a field's type)
+		ownClause := map[*ast.CaseClause]bool{}
+		ast.Inspect(fd.Body, func(n ast.Node) bool {
+			sw, ok := n.(*ast.SwitchStmt)
+			if !ok || sw.Tag == nil {
+				return true
+			}
+			if c, ok := ast.Unparen(sw.Tag).(*ast.CallExpr); ok {
+				if sel, ok := ast.Unparen(c.Fun).(*ast.SelectorExpr); ok && sel.Sel.Name == "Kind" {
+					if id, ok := ast.Unparen(sel.X).(*ast.Ident); ok && core.ParamObj(info, fd, id.Name) == info.ObjectOf(id) {
+						for _, cl := range sw.Body.List {
+							if cc, ok := cl.(*ast.CaseClause); ok {
+								ownClause[cc] = true
+							}
+						}
+					}
+				}
+			}
+			return true
+		})
+		if len(ownClause) == 0 {
+			core.Fail("generateWithoutSaving: no switch over the Kind() of a parameter")
+		}
 		ast.Inspect(fd.Body, func(n ast.Node) bool {
 			cc, ok := n.(*ast.CaseClause)
-			if !ok {
+			if !ok || !ownClause[cc] {
 				return true
 			}
 			var kinds []string
@@ -280,6 +305,10 @@ func c18Nullable(r *core.Report) {
 						}
 					}
 					if c, ok := constBool(info, rhs); ok && c {
+						okR = true
+					}
+					// `T.Kind() == reflect.Ptr` on the type at hand: the pointer level itself
+					if be, ok := rhs.(*ast.BinaryExpr); ok && be.Op == token.EQL && strings.HasSuffix(core.ExprStr(be.X), ".Kind()") && core.ExprStr(be.Y) == "reflect.Ptr" {
 						okR = true
 					}
 					if okR {
@@ -796,6 +825,26 @@ func c18PtrNull(r *core.Report) {
 				if !strips {
 					continue
 				}
+				if !records {
+					// `x.Nullable = T.Kind() == reflect.Ptr` next to the stripping (same block): the
+					// pointer test of the unstripped type is the record
+					path := core.PathTo(d.Body, site)
+					for i := len(path) - 2; i >= 0 && !records; i-- {
+						blk, ok := path[i].(*ast.BlockStmt)
+						if !ok {
+							continue
+						}
+						ast.Inspect(blk, func(m ast.Node) bool {
+							if as, ok := m.(*ast.AssignStmt); ok && len(as.Lhs) == 1 && len(as.Rhs) == 1 {
+								if sel, ok := ast.Unparen(as.Lhs[0]).(*ast.SelectorExpr); ok && sel.Sel.Name == "Nullable" && isPtrTest(as.Rhs[0]) {
+									records = true
+								}
+							}
+							return true
+						})
+						break
+					}
+				}
 				n++
 				k++
 				key := fmt.Sprintf("ptrnull:%s#%d", core.FuncName(d), k)
@@ -808,6 +857,41 @@ func c18PtrNull(r *core.Report) {
 		}
 		if n == 0 {
 			core.Fail("no pointer-stripping site found in the schema-producing functions of openapi3gen")
+		}
+	})
+}
+
+// c18StringOption: `json:",string"` changes the JSON type of the field.
+func c18StringOption(r *core.Report) {
+	p := r.Prog
+	info := p.Pkg("openapi3gen").TypesInfo
+	r.RunRule("C18.stringoption", "the ,string option of a json tag reaches the schema: the JSONString flag that the field collector records is read by generateWithoutSaving, and where it holds the property gets a schema of type string (openapi3.NewStringSchema) — a flag that is parsed and never consulted leaves an integer / number / boolean schema for a value that encoding/json writes as a JSON string", 1, func() {
+		fd := p.DeclOf("openapi3gen", "Generator.generateWithoutSaving")
+		n := 0
+		ast.Inspect(fd.Body, func(nd ast.Node) bool {
+			ifs, ok := nd.(*ast.IfStmt)
+			if !ok {
+				return true
+			}
+			reads := false
+			ast.Inspect(ifs.Cond, func(m ast.Node) bool {
+				if sel, ok := m.(*ast.SelectorExpr); ok {
+					if f := core.FieldSel(info, sel); f != nil && f.Name() == "JSONString" {
+						reads = true
+					}
+				}
+				return true
+			})
+			if !reads {
+				return true
+			}
+			n++
+			makesString := len(callsTo(info, ifs.Body, "NewStringSchema")) > 0
+			r.Check(makesString, fmt.Sprintf("stringoption:generateWithoutSaving#%d", n), p.Pos(ifs.Pos()), "a string schema is built where the option holds", "generateWithoutSaving tests the ,string flag but builds no string schema under it")
+			return true
+		})
+		if n == 0 {
+			r.Bad("stringoption:unread", p.Pos(fd.Pos()), "the ,string option is recorded by the field collector (theFieldInfo.JSONString) and never read by generateWithoutSaving: a field tagged `json:\"n,string\"` gets an integer schema while encoding/json writes {\"n\":\"5\"}, so every value of the type is rejected")
 		}
 	})
 }
